@@ -39,7 +39,7 @@ class GrammarSemantics(ModelBuilderSemantics):
         cls._validate_literal(ast)
         try:
             re.compile(str(ast))
-        except (TypeError, re.error) as e:
+        except (TypeError, ValueError, re.error) as e:
             raise FailedSemantics(f'"{ast!r}"pattern error: {e!s}') from e
 
     def token(self, ast: str) -> g.Token:
@@ -98,14 +98,21 @@ class GrammarSemantics(ModelBuilderSemantics):
         # )
         # return ast
 
+    @classmethod
+    def _eval_escapes(cls, value: str) -> str:
+        try:
+            return eval_escapes(value)
+        except ValueError as e:  # UnicodeDecodeError for '\xzz', '\N{unknown}'
+            raise FailedSemantics('literal string error: ' + str(e)) from e
+
     def string(self, ast):
         value = ast
-        return eval_escapes(value)
+        return self._eval_escapes(value)
 
     def multiline_string(self, ast):
         value = ast
         value = trim(value.strip()).rstrip()
-        return eval_escapes(value)
+        return self._eval_escapes(value)
 
     def hex(self, ast):
         return int(ast, 16)
@@ -218,6 +225,10 @@ class GrammarSemantics(ModelBuilderSemantics):
         if directives.get('whitespace') in {'None', 'False'}:
             # NOTE: use '' because None will _not_ override defaults in configuration
             directives['whitespace'] = ''
+        for dname in ('whitespace', 'comments', 'eol_comments'):
+            # NOTE: they may have been written as strings instead of /regex/
+            if isinstance(value := directives.get(dname), str):
+                self._validate_pattern(value)
 
         name = self.name or directives.get('grammar')
         grammar = g.Grammar(
